@@ -16,6 +16,10 @@ Every scenario is a finite history driven through the REAL `txdbus.client.connec
     (nothing / issue a new call / unregister itself / register another callback / obtain a new proxy
     synchronously from explicit interfaces and register a callback on it) which they perform
     when the code runs them inside `connectionLost`;
+  * the CALLER may cancel the Deferred that callRemote / getRemoteObject handed back while the reply is outstanding
+    (`Deferred.cancel()`: it fires with CancelledError at once; txdbus is not told, the `_pendingCalls` entry and its
+    DelayedCall stay until a reply, the timeout or the loss deletes them - each of which must then fire NOTHING on that
+    Deferred, while the loss must still cancel its timer);
   * proxies come from `getRemoteObject` with explicit interfaces (a DBusInterface, a list of them, a known
     name) and via introspection (interfaces=None, an unknown name, a list with an unknown name; the
     Introspect reply is scripted XML); the user "drops" a proxy by deleting the only strong reference.
@@ -36,7 +40,8 @@ import weakref
 
 STREAMS = ['endpoints-parse', 'lifecycle-close-everywhere', 'lifecycle-random', 'lifecycle-reactions',
            'lifecycle-extended']
-THEOREMS = ['connect_fires_once', 'first_reachable_in_order', 'lost_fails_everything_once', 'endpoint_prefix_table',
+THEOREMS = ['connect_fires_once', 'first_reachable_in_order', 'lost_fails_everything_once', 'cancelled_only_by_caller',
+            'endpoint_prefix_table',
             'address_list_in_listed_order', 'written_addresses_tried_in_order']
 TRUSTED_BASE = [
     'Twisted semantics assumed by the model and emulated by the harness: connectionLost is delivered once, no data '
@@ -48,7 +53,9 @@ TRUSTED_BASE = [
     'WeakValueDictionary (entry dies with its value, dict order), str.split / startswith / int() on ASCII, '
     'function-level scope of the variable `path` in getDBusEndpoints',
     'the weak_id (busName, objectPath, interfaces) of a proxy is abstracted to a natural number; equal keys <=> equal triples',
-    'Deferred / DelayedCall: a cell that fires once, a timer that is live until cancelled or fired',
+    'Deferred / DelayedCall: a cell that fires once, a timer that is live until cancelled or fired; Deferred.cancel() '
+    'without a canceller fires CancelledError at once and swallows the NEXT callback/errback made on it '
+    '(_suppressAlreadyCalled) - mirrored by Call.cancelled, validated by the streams',
 ]
 ASSUMPTIONS = [
     'Twisted calls connectionLost exactly once per connection and delivers nothing afterwards',
@@ -62,7 +69,8 @@ ASSUMPTIONS = [
 RULE = ('endpoints-parse: rendered well-formed address lists plus mutations (dropped keys, doubled "=", prefix in a '
         'later component, launchd/unknown transports, session/system).  lifecycle-*: a base history = address list '
         'with a chosen unreachable prefix (each failing with one of 14 exception classes: refused, other ConnectErrors, DNSLookupError, timeouts, OSError, Exception, CancelledError, ...), a scripted handshake (REJECTED/ERROR/DATA steps, unix-fd negotiation, cut '
-        'lines), Hello reply or error (whole or cut), 0..14 user operations and replies/expiries on the ready '
+        'lines), Hello reply or error (whole or cut), 0..14 user operations (incl. the caller cancelling the Deferred of '
+        'an outstanding call, timed or not) and replies/expiries on the ready '
         'connection, optionally the close; close-everywhere = every prefix of a base history followed by the close; '
         'reactions = every assignment of the six reactions to a fixed skeleton of callbacks and calls.  distinct = '
         'distinct canonical JSON of (address, steps); non-trivial = the transport connected (lifecycle) / at least one '
@@ -327,6 +335,8 @@ class Run:
         self.signal_loses = False
         self.stat_inside = None
         self.cancelled_in_loss = set()
+        self.deferreds = {}                # issue index -> the Deferred the caller was handed
+        self.cancelling = None             # issue index of the call whose Deferred the caller is cancelling right now
 
     # -- helpers ---------------------------------------------------------------------------------------------
     def new_cb(self, late=False):
@@ -455,6 +465,11 @@ class Run:
 
         def err(f):
             M = self.M
+            if self.cancelling == i:
+                # the caller's own d.cancel(): CancelledError, not a conclusion by the library
+                self.calls[i]['done'].append('cancelled')
+                self.fx.append('er:%d:cancelled' % i)
+                return
             if i in self.lose_inside and not self.closed:
                 kind = 'timeout' if f.check(M.error.TimeOut) else 'remote' if f.check(M.error.RemoteError) else \
                     'other:' + f.type.__name__
@@ -495,6 +510,7 @@ class Run:
         if len(new) != 1:
             self.unexpected.append('callRemote made %d table entries' % len(new))
             return
+        self.deferreds[new[0]] = d
         self.attach(d, new[0], r)
 
     def late_proxy(self, conn):
@@ -541,6 +557,9 @@ class Run:
         self.loss_thresholds = (len(self.serial_idx), self.next_cb, self.next_proxy)
         self.at_loss = {
             'outstanding': sorted(i for i, c in self.calls.items() if not c['done']),
+            # concluded by the caller (CancelledError), yet still in the table (with their timers) when the loss comes
+            'cancelled': sorted(i for i, c in self.calls.items() if c['done'] == ['cancelled']
+                                and self.idx_serial.get(i) in (getattr(self.proto, '_pendingCalls', None) or {})),
             'completed': sorted(i for i, c in self.calls.items() if c['done']),
             'conn_cbs': [c.cid for c in self.conn_cbs],
             'conn_cb_r': {c.cid: c.r for c in self.conn_cbs},
@@ -731,11 +750,29 @@ class Run:
             self.add_proxy(prox, False, key, form)
 
         def err(f):
-            kind = ('introspectionFailed' if f.check(M.error.IntrospectionFailed) else
+            kind = ('cancelled' if self.cancelling == i else
+                    'introspectionFailed' if f.check(M.error.IntrospectionFailed) else
                     'lost' if self.is_loss(f) else 'other:' + f.type.__name__)
             self.calls[i]['done'].append(kind)
             self.fx.append('er:%d:%s' % (i, kind))
         d.addCallbacks(ok, err)
+        self.deferreds[i] = d
+
+    def op_cancel_call(self, st):
+        """The caller gives up on an outstanding call: `.cancel()` on the Deferred it was handed."""
+        i = st['i']
+        d = self.deferreds.get(i)
+        if d is None:
+            self.unexpected.append('cancel of call #%d which the harness did not issue' % i)
+            return
+        self.cancelling = i
+        try:
+            exc = self.enter(d.cancel)
+        finally:
+            self.cancelling = None
+        if exc is not None:
+            self.fx.append('crash')
+            self.unexpected.append('Deferred.cancel() raised ' + repr(exc))
 
     def op_proxy_notify(self, st):
         rec = self.proxies.get(st['p'])
@@ -855,7 +892,8 @@ class Run:
         def nats(l):
             return ','.join(str(x) for x in l) or '-'
         pc = getattr(self.proto, '_pendingCalls', None) or {}
-        pend = ','.join('%d%s' % (self.serial_idx.get(s, -1), 't' if v[1] else '') for s, v in pc.items()) or '-'
+        pend = ','.join('%d%s%s' % (self.serial_idx.get(s, -1), 'c' if getattr(v[0], 'called', False) else '',
+                                    't' if v[1] else '') for s, v in pc.items()) or '-'
         loc = self.M.loc
         # tables behind private names: found by behaviour (c09_locate); '?' = not reachable, left out of the comparison
         dcs = loc.conn_callbacks(self.proto) if self.proto is not None else []
@@ -975,6 +1013,8 @@ def step_tokens(st):
         return ['pc:%d:%d' % (st['p'], st['c'])]
     if op == 'drop':
         return ['dp:%d' % st['p']]
+    if op == 'cancel_call':
+        return ['cd:%d' % st['i']]
     if op == 'reply':
         if st.get('part') == 'head':
             return []
@@ -1358,6 +1398,8 @@ class ReadyGen:
         out = []
         for _ in range(rng.randrange(3, 6)):
             out += self.step(rng.choice(['call', 'call_timed']))
+        for _ in range(rng.choice([0, 0, 1, 2])):
+            out += self.step('cancel_call')
         for _ in range(rng.randrange(2, 4)):
             out += self.step('notify')
         for _ in range(rng.randrange(3, 5)):
@@ -1394,7 +1436,19 @@ class ReadyGen:
         timed = [i for i, c in self.pending.items() if c['deadline'] is not None]
         if timed:
             ops.append('expire')
+        cancellable = sorted(i for i, c in self.pending.items() if not c.get('cancelled'))
+        if cancellable:
+            ops += ['cancel_call', 'cancel_call']
         op = force or rng.choice(ops)
+        if op == 'cancel_call':
+            if not cancellable:
+                return []
+            # the caller gives up on an outstanding call (preferably one that has a timeout): the entry and its timer
+            # stay in the table until a reply, the timeout or the loss
+            with_timer = [i for i in cancellable if self.pending[i]['deadline'] is not None]
+            i = rng.choice(with_timer if with_timer and rng.random() < 0.7 else cancellable)
+            self.pending[i]['cancelled'] = True
+            return [{'op': 'cancel_call', 'i': i}]
         if op in ('call', 'call_timed'):
             timeout = None
             if op == 'call_timed':
@@ -1444,11 +1498,12 @@ class ReadyGen:
             i = rng.choice(sorted(self.pending))
             c = self.pending.pop(i)
             ok = rng.random() < 0.7
-            if c['kind'] == 'introspect' and ok:
+            if c['kind'] == 'introspect' and ok and not c.get('cancelled'):
                 p = self.next_proxy
                 self.next_proxy += 1
                 self.proxies[p] = {'alive': True, 'cbs': []}
-            inside = c['kind'] == 'user' and rng.random() < self.p_inside
+            # (a reply for a Deferred the caller has cancelled runs no user callback: nothing can close from inside it)
+            inside = c['kind'] == 'user' and not c.get('cancelled') and rng.random() < self.p_inside
             if inside:
                 self.closed = True
             if rng.random() < 0.3:
@@ -1459,8 +1514,8 @@ class ReadyGen:
         # expire: only the earliest live timer can fire next
         i = min(timed, key=lambda j: self.pending[j]['deadline'])
         self.now = self.pending[i]['deadline']
-        self.pending.pop(i)
-        if rng.random() < self.p_inside:
+        c = self.pending.pop(i)
+        if not c.get('cancelled') and rng.random() < self.p_inside:
             self.closed = True
             return [{'op': 'expire', 'i': i, 'lose_inside': True}]
         return [{'op': 'expire', 'i': i}]
@@ -1580,6 +1635,36 @@ def gen_reaction_skeletons(quick):
                                   {'op': 'signal'}, {'op': 'signal', 'lose_inside': True}]
                     entries = [{'kind': 'tcp', 'host': '127.0.0.1', 'port': 1234}]
                     out.append({'entries': entries, 'address': render_entry(entries[0]), 'steps': steps})
+    # the caller cancels the Deferred of an outstanding call (with / without a timeout; a user call / a getRemoteObject
+    # waiting for its Introspect reply) while another timed call and a callback are in flight; then nothing / a second
+    # cancel / the reply / an error reply / the timeout arrives for it; then the connection is lost
+    for victim in ('timed', 'untimed', 'introspect'):
+        for then in ('nothing', 'again', 'reply', 'error', 'expire', 'other-reply'):
+            for r0 in ['n', 'c', 'x']:
+                if then == 'expire' and victim != 'timed':
+                    continue
+                steps = [{'op': 'ac'}, {'op': 'auth', 'hex': (b'OK ' + GUID + b'\r\n').hex(), 'tok': ['ao']},
+                         {'op': 'hello', 'ok': True}, {'op': 'notify', 'r': r0}]
+                if victim == 'introspect':
+                    steps.append({'op': 'proxy_introspect', 'key': 0, 'form': 'none'})                   # 1: the victim
+                else:
+                    steps.append({'op': 'call', 'timeout': 20.0 if victim == 'timed' else None, 'r': r0})  # 1: the victim
+                steps += [{'op': 'call', 'timeout': 90.0, 'r': 'n'},                                      # 2: in flight, timed
+                          {'op': 'call', 'timeout': None, 'r': r0},                                       # 3: in flight
+                          {'op': 'cancel_call', 'i': 1}]
+                if then == 'again':
+                    steps.append({'op': 'cancel_call', 'i': 1})
+                elif then == 'reply':
+                    steps.append({'op': 'reply', 'i': 1, 'ok': True})
+                elif then == 'error':
+                    steps.append({'op': 'reply', 'i': 1, 'ok': False})
+                elif then == 'expire':
+                    steps.append({'op': 'expire', 'i': 1})
+                elif then == 'other-reply':
+                    steps += [{'op': 'reply', 'i': 2, 'ok': True}, {'op': 'cancel_call', 'i': 3}]
+                steps.append({'op': 'close', 'reason': 'done' if r0 != 'c' else 'lost'})
+                entries = [{'kind': 'tcp', 'host': '127.0.0.1', 'port': 1234}]
+                out.append({'entries': entries, 'address': render_entry(entries[0]), 'steps': steps})
     # two live proxies of the SAME remote object (same bus name, path, interfaces), obtained both ways
     for how in (('i', 'i'), ('e', 'e'), ('e', 'i'), ('i', 'e')):
         for r0 in (['n', 'u', 'x'] if quick else REACTIONS):
@@ -1718,6 +1803,9 @@ def check_scenarios(ctx, M, stream, scenarios, use_model=True):
         if run.at_loss is not None:
             ctx.stat('life:loss-with-calls=%d' % min(len(run.at_loss['outstanding']), 6))
             ctx.stat('life:loss-with-proxies=%d' % min(len(run.at_loss['proxies']), 4))
+            ctx.stat('life:loss-with-cancelled-calls=%d' % min(len(run.at_loss['cancelled']), 3))
+            if any(run.calls[i]['timed'] for i in run.at_loss['cancelled']):
+                ctx.stat('life:loss-with-cancelled-timed-call')
         if run.reach is not None:
             # the harness could not reach an internal it wanted to look at: its own problem, never a verdict
             ctx.stat('life:harness-reach-problem')
